@@ -129,3 +129,90 @@ Example ex_hex_lower : hex_read (map lower (hex_write (mkCfg LE Ext D4 true) ex_
 Proof. vm_compute. reflexivity. Qed.
 Example ex_type_words : map (fun fl => type_word fl true 10 true true) [Ext; Iso] = [3758096394; 3010].
 Proof. vm_compute. reflexivity. Qed.
+
+(* ------------------------------------------------------------------------------------------------------------------------
+   the byte-order codec of src/io/ByteOrderValues.cpp, on the definitions GENERATED from the C++ on every run
+   (Gen/BO_getInt, BO_getUnsigned, BO_getLong, BO_putInt, BO_putUnsigned, BO_putLong; meanings in C09/GenPreludeBO.v:
+   a buffer is a function index -> byte, a put function returns the updated buffer, integral casts and `<<` wrap into their
+   C++ type).  BIG is ENDIAN_BIG as probed from the header; any other order value takes the source's else branch (little endian). *)
+From Coq Require Import ZArith.
+From GeosV.C09 Require Import GenPreludeBO BODefs BOProofs BOTheorems.
+From GeosV.Gen Require Import BO_getInt BO_getUnsigned BO_getLong BO_putInt BO_putUnsigned BO_putLong.
+Local Open Scope Z_scope.
+
+(* (a) the generated functions are the hand model's words (Lib/Bytes through WKBDefs.enc / dec), both byte orders, every value *)
+Theorem C09_gen_putInt_is_model : forall b o v buf, order_is b o -> map Z.to_N (rd4 (g_putInt v buf o)) = enc b 4 (Z.to_N (cast_u32 v)).
+Proof. exact putInt_model. Qed.
+Print Assumptions C09_gen_putInt_is_model.
+Theorem C09_gen_putUnsigned_is_model : forall b o v buf, order_is b o -> map Z.to_N (rd4 (g_putUnsigned v buf o)) = enc b 4 (Z.to_N (cast_u32 v)).
+Proof. exact putUnsigned_model. Qed.
+Print Assumptions C09_gen_putUnsigned_is_model.
+Theorem C09_gen_putLong_is_model : forall b o v buf, order_is b o -> map Z.to_N (rd8 (g_putLong v buf o)) = enc b 8 (Z.to_N (cast_u64 v)).
+Proof. exact putLong_model. Qed.
+Print Assumptions C09_gen_putLong_is_model.
+Theorem C09_gen_getInt_is_model : forall b o buf, order_is b o -> bytes4 buf ->
+  g_getInt buf o = cast_i32 (Z.of_N (dec b (map Z.to_N (rd4 buf)))).
+Proof. exact getInt_model. Qed.
+Print Assumptions C09_gen_getInt_is_model.
+Theorem C09_gen_getUnsigned_is_model : forall b o buf, order_is b o -> bytes4 buf ->
+  g_getUnsigned buf o = Z.of_N (dec b (map Z.to_N (rd4 buf))).
+Proof. exact getUnsigned_model. Qed.
+Print Assumptions C09_gen_getUnsigned_is_model.
+Theorem C09_gen_getLong_is_model : forall b o buf, order_is b o -> bytes8 buf ->
+  g_getLong buf o = cast_i64 (Z.of_N (dec b (map Z.to_N (rd8 buf)))).
+Proof. exact getLong_model. Qed.
+Print Assumptions C09_gen_getLong_is_model.
+
+(* (b) round trips over the generated definitions themselves: every int32 / uint32 / int64, every order value, every buffer *)
+Theorem C09_gen_getInt_putInt : forall v buf o, int32 v -> g_getInt (g_putInt v buf o) o = v.
+Proof. exact getInt_putInt. Qed.
+Print Assumptions C09_gen_getInt_putInt.
+Theorem C09_gen_getUnsigned_putUnsigned : forall v buf o, uint32 v -> g_getUnsigned (g_putUnsigned v buf o) o = v.
+Proof. exact getUnsigned_putUnsigned. Qed.
+Print Assumptions C09_gen_getUnsigned_putUnsigned.
+Theorem C09_gen_getLong_putLong : forall v buf o, int64 v -> g_getLong (g_putLong v buf o) o = v.
+Proof. exact getLong_putLong. Qed.
+Print Assumptions C09_gen_getLong_putLong.
+Theorem C09_gen_putInt_getInt : forall buf o, bytes4 buf -> rd4 (g_putInt (g_getInt buf o) buf o) = rd4 buf.
+Proof. exact putInt_getInt. Qed.
+Print Assumptions C09_gen_putInt_getInt.
+Theorem C09_gen_putUnsigned_getUnsigned : forall buf o, bytes4 buf -> rd4 (g_putUnsigned (g_getUnsigned buf o) buf o) = rd4 buf.
+Proof. exact putUnsigned_getUnsigned. Qed.
+Print Assumptions C09_gen_putUnsigned_getUnsigned.
+Theorem C09_gen_putLong_getLong : forall buf o, bytes8 buf -> rd8 (g_putLong (g_getLong buf o) buf o) = rd8 buf.
+Proof. exact putLong_getLong. Qed.
+Print Assumptions C09_gen_putLong_getLong.
+(* ... and a put function writes nothing but its 4 / 8 bytes *)
+Theorem C09_gen_put_frame : forall v buf o j,
+  (~ (0 <= j < 4) -> idx (g_putInt v buf o) j = idx buf j /\ idx (g_putUnsigned v buf o) j = idx buf j) /\
+  (~ (0 <= j < 8) -> idx (g_putLong v buf o) j = idx buf j).
+Proof. exact (fun v buf o j => conj (fun H => conj (putInt_frame v buf o j H) (putUnsigned_frame v buf o j H)) (putLong_frame v buf o j)). Qed.
+Print Assumptions C09_gen_put_frame.
+
+(* (c) the two byte orders of the same value are byte reversals of each other, writing and reading *)
+Theorem C09_gen_put_orders_reversed : forall v buf buf' o, o <> BIG ->
+  rd4 (g_putInt v buf BIG) = rev (rd4 (g_putInt v buf' o)) /\
+  rd4 (g_putUnsigned v buf BIG) = rev (rd4 (g_putUnsigned v buf' o)) /\
+  rd8 (g_putLong v buf BIG) = rev (rd8 (g_putLong v buf' o)).
+Proof. exact (fun v buf buf' o H => conj (putInt_orders_reversed v buf buf' o H) (conj (putUnsigned_orders_reversed v buf buf' o H) (putLong_orders_reversed v buf buf' o H))). Qed.
+Print Assumptions C09_gen_put_orders_reversed.
+Theorem C09_gen_getInt_orders_reversed : forall buf buf' o, o <> BIG -> bytes4 buf -> rd4 buf' = rev (rd4 buf) -> g_getInt buf' o = g_getInt buf BIG.
+Proof. exact getInt_orders_reversed. Qed.
+Print Assumptions C09_gen_getInt_orders_reversed.
+Theorem C09_gen_getUnsigned_orders_reversed : forall buf buf' o, o <> BIG -> bytes4 buf -> rd4 buf' = rev (rd4 buf) -> g_getUnsigned buf' o = g_getUnsigned buf BIG.
+Proof. exact getUnsigned_orders_reversed. Qed.
+Print Assumptions C09_gen_getUnsigned_orders_reversed.
+Theorem C09_gen_getLong_orders_reversed : forall buf buf' o, o <> BIG -> bytes8 buf -> rd8 buf' = rev (rd8 buf) -> g_getLong buf' o = g_getLong buf BIG.
+Proof. exact getLong_orders_reversed. Qed.
+Print Assumptions C09_gen_getLong_orders_reversed.
+
+(* non-vacuity: the hypotheses are inhabited and the generated functions compute the familiar bytes *)
+Definition ex_buf : buffer := fun i => 255 - i.
+Example ex_bo_hyps : order_is BE BIG /\ order_is LE 1 /\ 1 <> BIG /\ bytes4 ex_buf /\ bytes8 ex_buf /\
+  int32 (-2147483648) /\ int32 2147483647 /\ uint32 4294967295 /\ int64 (-9223372036854775808) /\ int64 9223372036854775807.
+Proof. unfold order_is, bytes4, bytes8, rd4, rd8, ex_buf, idx, isbyte, int32, uint32, int64. repeat split; try discriminate; try (cbv; congruence); repeat constructor; cbv; congruence. Qed.
+Example ex_bo_srid_bytes : rd4 (g_putInt 4326 ex_buf 1) = [230; 16; 0; 0] /\ rd4 (g_putInt 4326 ex_buf BIG) = [0; 0; 16; 230] /\
+  rd4 (g_putInt (-1) ex_buf 1) = [255; 255; 255; 255] /\ g_getInt (g_putInt (-2147483648) ex_buf 1) 1 = -2147483648 /\
+  rd8 (g_putLong 4607182418800017408 ex_buf BIG) = [63; 240; 0; 0; 0; 0; 0; 0] /\ g_getLong ex_buf 1 = -506097522914230529 /\
+  g_getUnsigned ex_buf BIG = 4294901244 /\ idx (g_putLong 0 ex_buf 1) 8 = 247.
+Proof. vm_compute. repeat split; reflexivity. Qed.
